@@ -38,10 +38,104 @@ RULE = ("array level: 1-D (1..200 bins) and 2-D ((1..40)x(1..8)) rate arrays, ra
         "with 0-15% exact zeros, count arrays: none, single, several per bin, all bins active, int and float dtype; activity "
         "invariance checked by replacing counts with other counts of the same support; public tests on gridded forecasts and "
         "catalogs of 0..300 interior events with injected random_numbers (width = number of active cells), some forecasts built "
-        "through GriddedDataSet.scale, 20% with a forced event in a zero-rate bin. A case is "
+        "through GriddedDataSet.scale, 20% with a forced event in a zero-rate bin. Half of the arrays and a third of the "
+        "forecasts carry the SAME values in another representation: memory layout of the rate array and (independently) of "
+        "the count array in {C, Fortran order, transposed view, every-second-column / every-second-row slice, window of a "
+        "larger array, negative strides, read-only}, rate dtype in {float64, int64, int32, int16, int8, uint8, uint32, uint64 "
+        "(whole-number rates 0..10), float32 and float16 roundings of 10^U(-3,1), float32 roundings of 10^U(-9,1)}, count "
+        "dtype in {int64, float64, bool, uint8, int32, float32, uint64}; the array-level test drivers "
+        "_binary_likelihood_test / _brier_score_test are called on these arrays too; every score is compared with the "
+        "definition to double-precision rounding whatever the dtype. Comparisons switched off because unchanged pyCSEP "
+        "itself departs from the definition there are named in AWAITING_DECISION. A case is "
         "non-trivial when it has an active and an inactive bin and a bin with >= 2 events; distinct by (rate bits, counts).")
 
 SIG_D17 = "binary-ll:active-bin-with-nonpositive-rate"
+
+# Representation classes (same mathematical arrays, other memory layout / dtype).  The property quantifies over "all rate
+# arrays ... and all count arrays"; which numpy layout or dtype carries the numbers is not part of the statement, so every
+# representation pyCSEP accepts must give the definition's value.
+LAYOUTS_2D = ["C", "F", "T", "colstep", "rowstep", "window", "rev", "revcol", "readonly"]
+LAYOUTS_1D = ["C", "step", "window", "rev", "readonly"]
+RATE_DTYPES = ["f8", "i8", "i4", "f4"]
+COUNT_DTYPES = ["i8", "f8", "?", "u1", "i4", "f4", "u8"]
+# Rate dtypes beyond float64 / int64 / int32 / float32(>= 1e-3).  On them the implementation before fix D34 (/repo cf1bfa1)
+# departed from the definition (witnesses in corpus/C16/d34_*.json):
+#   rates-unsigned-int : `-forecast` wrapped around for uint8/16/32/64 rates (256.0 where the definition gives -2.51)
+#   rates-narrow-float : int8 / float16 rates were exponentiated in float16 (5e-5 off), int16 in float32
+#   rates-float32-tiny : float32 rates below 1e-3 in an active bin: 1 - exp(-rate) was formed in float32; below 6e-8 it is 0
+#                        and the bin scored +1.0 (0.5 where the definition gives -18.9)
+# All three classes are generated now.  AWAITING_DECISION lists sub-classes on which the UNCHANGED implementation still
+# departs from the definition (genuine-defect candidates, notes/C16.md "Observed"); a name in it switches off exactly the
+# comparison named, nothing else:
+#   map-unsigned-int-rates : poisson_evaluations.binary_spatial_likelihood (the per-cell map) on a forecast whose rates are
+#                            unsigned integers: `-forecast.spatial_counts() * scale` wraps around, every cell is nan.
+#                            Only the per-cell map comparison is skipped for these forecasts; the joint log-likelihood,
+#                            the Brier score and the three public tests are checked on them like on any other.
+AWAITING_DECISION = ["map-unsigned-int-rates"]
+_EXTRA_DTYPES = {"rates-unsigned-int": ["u1", "u4", "u8"], "rates-narrow-float": ["i1", "f2", "i2"],
+                 "rates-float32-tiny": ["f4tiny"]}
+_NP = {"f8": numpy.float64, "i8": numpy.int64, "i4": numpy.int32, "f4": numpy.float32, "f4tiny": numpy.float32,
+       "?": numpy.bool_, "u1": numpy.uint8, "u4": numpy.uint32, "u8": numpy.uint64, "i1": numpy.int8, "i2": numpy.int16,
+       "f2": numpy.float16}
+
+
+def _rate_dtypes():
+    out = list(RATE_DTYPES)
+    for name, dts in _EXTRA_DTYPES.items():
+        if name not in AWAITING_DECISION:
+            out += dts
+    return out
+
+
+# The SCORES (joint log-likelihood, Brier score; observed and simulated entries of the tests) are compared with the
+# definition to double-precision rounding whatever the dtype of the rate array: the rates are exact numbers, and a score
+# formed in a narrower arithmetic is off by far more than that (fix D34).
+EPS64 = 2.0 ** -51
+
+
+def _unit(rdtype):
+    """round-off (generously: 2 ulp) of arithmetic carried out IN the rate array's own floating dtype - what numpy uses
+    when the implementation sums (marginal rates), accumulates (sampling weights) or, in the per-cell map, exponentiates
+    the array as it is. 0.0 for float64 and for every integer dtype (integer sums are exact, then float64)."""
+    if rdtype in ("f4", "f4tiny"):
+        return 2.0 ** -22
+    if rdtype == "f2":
+        return 2.0 ** -9
+    return 0.0
+
+
+def _layout(a, kind, fill):
+    """an array equal to `a` in shape, dtype and values whose memory is laid out as `kind`; memory that does not belong
+    to the result is filled with `fill` so that reading the buffer instead of the array shows"""
+    a = numpy.ascontiguousarray(a)
+    if kind == "C" or a.size == 0:
+        return a.copy()
+    if kind == "readonly":
+        out = a.copy()
+        out.flags.writeable = False
+        return out
+    if kind == "F":
+        return numpy.asfortranarray(a)
+    if kind == "T":
+        return numpy.ascontiguousarray(a.T).T
+    if kind in ("colstep", "step"):
+        big = numpy.full(a.shape[:-1] + (2 * a.shape[-1] + 1,), fill, dtype=a.dtype)
+        big[..., 1::2] = a
+        return big[..., 1::2]
+    if kind == "rowstep":
+        big = numpy.full((2 * a.shape[0],) + a.shape[1:], fill, dtype=a.dtype)
+        big[::2] = a
+        return big[::2]
+    if kind == "window":
+        big = numpy.full(tuple(n + 3 for n in a.shape), fill, dtype=a.dtype)
+        sl = tuple(slice(1 + k, 1 + k + n) for k, n in enumerate(a.shape))
+        big[sl] = a
+        return big[sl]
+    if kind == "rev":
+        return numpy.ascontiguousarray(a[::-1])[::-1]
+    if kind == "revcol":
+        return numpy.ascontiguousarray(a[:, ::-1])[:, ::-1]
+    raise ValueError(kind)
 
 
 _DEV = {"oracle": 0.0, "model": 0.0}
@@ -70,10 +164,13 @@ def _lst(a, f):
 
 
 # ----------------------------------------------------------------------------- the definitions (oracle)
-def _binary_def(rates, counts):
+def _binary_def(rates, counts, eps=2.0 ** -51, rate_err=0.0):
     """returns (definition value, value of the bins that are not offending, number of offending bins, abs tolerance)
-    offending = active bin with rate <= 0 (definition -inf)"""
+    offending = active bin with rate <= 0 (definition -inf).  eps: round-off of the arithmetic the rate dtype implies
+    (float64 unless the rates are float32); rate_err: relative uncertainty of the rates themselves (marginal sums formed
+    in float32)"""
     act, inact, offending, cond = [], [], 0, 0.0
+    wide = eps > 2.0 ** -51
     for r, c in zip(rates, counts):
         r = float(r)
         if c > 0:
@@ -81,21 +178,25 @@ def _binary_def(rates, counts):
                 offending += 1
             else:
                 p = -math.expm1(-r)
-                act.append(math.log(p))
-                cond += 2.0 ** -51 / p
+                lp = math.log(p)
+                act.append(lp)
+                cond += eps / p + rate_err * r / p
+                if wide:
+                    cond += eps * abs(lp)
         else:
             inact.append(-r)
+            cond += rate_err * r
     rest = math.fsum(act + inact)
     return (-math.inf if offending else rest), rest, offending, cond
 
 
-def _brier_def(rates, counts):
+def _brier_def(rates, counts, eps=2.0 ** -51):
     n = len(rates)
     terms, cond = [], 0.0
     for r, c in zip(rates, counts):
         d = -math.expm1(-float(r)) - (1.0 if c > 0 else 0.0)
         terms.append(d * d)
-        cond += 2.0 * abs(d) * 2.0 ** -51
+        cond += 2.0 * abs(d) * eps
     return -2.0 / n * math.fsum(terms), 2.0 / n * cond
 
 
@@ -120,10 +221,10 @@ def _masked_contribution():
     return _PROBE[0]
 
 
-def _check_binary(run, case, what, val, rates, counts):
+def _check_binary(run, case, what, val, rates, counts, eps=2.0 ** -51, rate_err=0.0):
     """direct oracle for one binary-LL value; returns the abs tolerance used for the model comparison (None: the entry is
     -inf as the definition demands for an event in a zero-rate bin, which the property allows besides the known finding)"""
-    dv, rest, k, cond = _binary_def(rates, counts)
+    dv, rest, k, cond = _binary_def(rates, counts, eps, rate_err)
     _track("oracle", val, dv)
     if k:
         run.count("binary-offending")
@@ -148,8 +249,8 @@ def _check_binary(run, case, what, val, rates, counts):
     return cond
 
 
-def _check_brier(run, case, what, val, rates, counts):
-    dv, cond = _brier_def(rates, counts)
+def _check_brier(run, case, what, val, rates, counts, eps=2.0 ** -51, rate_err=0.0):
+    dv, cond = _brier_def(rates, counts, eps)
     _track("oracle", val, dv)
     if not _close(val, dv, cond):
         run.oracle_failure(case, f"{what}: value {val!r} != definition {dv!r}")
@@ -206,33 +307,59 @@ def _same_support(rng, counts):
     return f.reshape(counts.shape)
 
 
+def _materialise(spec):
+    """the rate and count arrays of an array-level spec in the representation (dtype, memory layout) the spec names,
+    plus their C-order float64 / int values (what the definition is evaluated on)"""
+    shape = tuple(spec["shape"])
+    rdt, cdt = spec.get("rdtype", "f8"), spec.get("cdtype", "f8" if spec.get("float_counts") else "i8")
+    vals = numpy.array([float.fromhex(x) for x in spec["rates"]]).reshape(shape)
+    rates = _layout(vals.astype(_NP[rdt]), spec.get("rlayout", "C"), 3.0)
+    c0 = numpy.array(spec["counts"], dtype=int).reshape(shape)
+    c2 = numpy.array(spec["counts2"], dtype=int).reshape(shape)
+    if cdt == "u1":
+        c0, c2 = numpy.minimum(c0, 255), numpy.minimum(c2, 255)
+    counts = _layout(c0.astype(_NP[cdt]), spec.get("clayout", "C"), 5)
+    counts2 = _layout(c2.astype(_NP[cdt] if cdt != "?" else int), spec.get("clayout2", "C"), 5)
+    if not (numpy.array_equal(rates, vals) and rates.shape == shape and counts.shape == shape):
+        raise AssertionError("harness: the representation changed the values")         # exit 2, never a verdict
+    return rates, counts, counts2, vals, rdt, cdt
+
+
 def _array_case(run, drv, pending, spec, tag="array"):
     from csep.core.binomial_evaluations import binary_joint_log_likelihood_ndarray
     from csep.core.brier_evaluations import _brier_score_ndarray
     shape = tuple(spec["shape"])
-    rates = numpy.array([float.fromhex(x) for x in spec["rates"]]).reshape(shape)
-    counts = numpy.array(spec["counts"], dtype=float if spec["float_counts"] else int).reshape(shape)
-    counts2 = numpy.array(spec["counts2"], dtype=int).reshape(shape)
+    rates, counts, counts2, vals, rdt, cdt = _materialise(spec)
+    eps = EPS64
     case = dict(spec=spec, kind="array", tag=tag)
-    fr, fc = rates.ravel().tolist(), [int(x) for x in counts.ravel()]
+    fr, fc = vals.ravel().tolist(), [int(x) for x in numpy.ascontiguousarray(counts).ravel()]
     n_act = sum(1 for c in fc if c > 0)
     nontriv = 0 < n_act < len(fc) and max(fc) >= 2
+    rl, cl = spec.get("rlayout", "C"), spec.get("clayout", "C")
     run.case(dict(kind="array", shape=list(shape), cls=spec["cls"], counts=spec["ckind"], active=n_act,
-                  zeros=int((rates == 0).sum()), tag=tag), (rates.tobytes(), counts.tobytes()) if nontriv else None)
+                  zeros=int((vals == 0).sum()), tag=tag, rdtype=rdt, cdtype=cdt, rlayout=rl, clayout=cl),
+             (vals.tobytes(), numpy.ascontiguousarray(counts).tobytes(), rdt, cdt, rl, cl) if nontriv else None)
     run.count(f"array-{len(shape)}d")
     run.count(f"rates-{spec['cls']}")
     run.count(f"counts-{spec['ckind']}")
+    run.count(f"rate-dtype-{rdt}")
+    run.count(f"count-dtype-{cdt}")
+    run.count(f"rate-layout-{rl}")
+    run.count(f"count-layout-{cl}")
+    if len(shape) == 2 and rates.flags.c_contiguous != counts.flags.c_contiguous:
+        run.count("layouts-differ")
     try:
         with numpy.errstate(all="ignore"):
-            bll = float(binary_joint_log_likelihood_ndarray(rates.copy(), counts.copy()))
-            bll2 = float(binary_joint_log_likelihood_ndarray(rates.copy(), counts2.copy()))
-            bri = float(_brier_score_ndarray(rates.copy(), counts.copy()))
-            bri2 = float(_brier_score_ndarray(rates.copy(), counts2.copy()))
+            # the arrays are handed over as they are (no copy: a copy would normalise the layout under test)
+            bll = float(binary_joint_log_likelihood_ndarray(rates, counts))
+            bll2 = float(binary_joint_log_likelihood_ndarray(rates, counts2))
+            bri = float(_brier_score_ndarray(rates, counts))
+            bri2 = float(_brier_score_ndarray(rates, counts2))
     except Exception as e:
         run.oracle_failure(case, f"array-level call raised {type(e).__name__}: {e}")
         return
-    t1 = _check_binary(run, case, "binary_joint_log_likelihood_ndarray", bll, fr, fc)
-    t2 = _check_brier(run, case, "_brier_score_ndarray", bri, fr, fc)
+    t1 = _check_binary(run, case, "binary_joint_log_likelihood_ndarray", bll, fr, fc, eps)
+    t2 = _check_brier(run, case, "_brier_score_ndarray", bri, fr, fc, eps)
     # depends on the observation only through which bins are active
     if not ((bll == bll2 if t1 is None else _close(bll, bll2, t1)) and _close(bri, bri2, t2)):
         run.oracle_failure(case, f"scores differ for two count arrays with the same support: binary {bll!r} vs {bll2!r}, "
@@ -240,6 +367,34 @@ def _array_case(run, drv, pending, spec, tag="array"):
     i = drv.ask(f"c16_bll {_lst(fr, _bits)} {_lst(fc, str)}")
     j = drv.ask(f"c16_brier {_lst(shape, str)} {_lst(fr, _bits)} {_lst(fc, str)}")
     pending.append((case, "array", [i, j], [bll, bri], [t1, t2]))
+    if spec.get("drivers"):
+        _array_drivers(run, drv, pending, case, spec, rates, counts, vals, fc, rdt)
+
+
+def _array_drivers(run, drv, pending, case, spec, rates, counts, vals, fc, rdt):
+    """the array-level test drivers behind the public tests, on the same representation: observed and every simulated
+    entry are the definition's values (injected uniform numbers, one per active bin)"""
+    from csep.core.binomial_evaluations import _binary_likelihood_test
+    from csep.core.brier_evaluations import _brier_score_test
+    n_active = sum(1 for c in fc if c > 0)
+    nsim = spec["drivers"]
+    g = numpy.random.default_rng(spec["rn_seed"])
+    shape = tuple(spec["shape"])
+    for mode, fn in (("CL", _binary_likelihood_test), ("B", _brier_score_test)):
+        rn = g.random((nsim, n_active))
+        try:
+            with numpy.errstate(all="ignore"):
+                qs, obs, td = fn(rates, counts, num_simulations=nsim, random_numbers=rn, verbose=False)
+        except Exception as e:
+            run.oracle_failure(case, f"{fn.__name__} raised {type(e).__name__}: {e}")
+            continue
+        run.count(f"call-{fn.__name__}")
+        _score_entries(run, drv, pending, case, mode, fn.__name__, vals.reshape(shape if len(shape) == 2 else (-1, 1)),
+                       numpy.array(fc).reshape(shape if len(shape) == 2 else (-1, 1)), rn, float(obs),
+                       [float(x) for x in td], rdt)
+
+
+LAYOUT_SHARE = 0.5
 
 
 def _gen_array_spec(rng, tier):
@@ -248,13 +403,43 @@ def _gen_array_spec(rng, tier):
         shape = (rng.choice([1, 2, 3, 10, 50, 200, rng.randint(1, 200)]),)
     else:
         shape = (rng.choice([1, 2, 5, 40, rng.randint(1, 40)]), rng.choice([1, 2, 8, rng.randint(1, 8)]))
-    cls, rates = _gen_rates(rng, g, shape)
+    rep = rng.random() < LAYOUT_SHARE
+    rdt = rng.choice(_rate_dtypes()) if rep and rng.random() < 0.6 else "f8"
+    if rdt in ("f8",):
+        cls, rates = _gen_rates(rng, g, shape)
+    else:
+        cls, rates = _gen_rates_dtype(rng, g, shape, rdt)
     if not (rates > 0).any():
-        rates.ravel()[rng.randrange(rates.size)] = 10.0 ** rng.uniform(-9, 1)
+        rates.ravel()[rng.randrange(rates.size)] = 10.0 ** rng.uniform(-9, 1) if rdt == "f8" else 1.0
     ckind, counts = _gen_counts(rng, g, rates, allow_zero_rate=rng.random() < 0.25)
-    return dict(shape=list(shape), cls=cls, ckind=ckind, rates=[float(x).hex() for x in rates.ravel()],
+    lay = LAYOUTS_2D if len(shape) == 2 else LAYOUTS_1D
+    spec = dict(shape=list(shape), cls=cls, ckind=ckind, rates=[float(x).hex() for x in rates.ravel()],
                 counts=[int(x) for x in counts.ravel()], counts2=[int(x) for x in _same_support(rng, counts).ravel()],
                 float_counts=rng.random() < 0.5)
+    if rep:
+        spec.update(rdtype=rdt, cdtype=rng.choice(COUNT_DTYPES), rlayout=rng.choice(lay), clayout=rng.choice(lay),
+                    clayout2=rng.choice(lay), drivers=rng.choice([0, 1, 2]), rn_seed=rng.randrange(2 ** 32))
+        if rdt in ("f8",) and rng.random() < 0.5:
+            spec["rlayout"] = rng.choice(["F", "T", "colstep", "rowstep"] if len(shape) == 2 else ["step", "rev"])
+    return spec
+
+
+def _gen_rates_dtype(rng, g, shape, rdt):
+    """rate values exactly representable in the dtype `rdt` (returned as float64): whole numbers 0..10 for the integer
+    dtypes, float32 / float16 roundings of 10^U(lo, 1) for the narrow floats"""
+    z = rng.choice([0.0, 0.0, 0.05, 0.15])
+    if rdt[0] in "iu":
+        a = g.integers(1, 11, size=shape).astype(float)
+        if rng.random() < 0.3:
+            a = numpy.where(g.random(shape) < 0.7, 1.0, a)
+        cls = "whole"
+    else:
+        lo = -9 if rdt == "f4tiny" else -3
+        a = (10.0 ** g.uniform(lo, 1, size=shape)).astype(_NP[rdt]).astype(float)
+        a = numpy.minimum(a, 10.0)
+        cls = "narrow-float"
+    a = numpy.where(g.random(shape) < z, 0.0, a)
+    return cls, a
 
 
 # ----------------------------------------------------------------------------- public tests
@@ -262,12 +447,17 @@ def _gen_test_spec(rng, tier):
     ns = rng.choice([1, 2, 3, 5, 8, 13, 20, 40, rng.randint(1, 40)])
     nm = rng.choice([1, 1, 2, 3, 8, rng.randint(1, 8)])
     g = numpy.random.default_rng(rng.randrange(2 ** 32))
-    cls, data = _gen_rates(rng, g, (ns, nm))
+    rep = rng.random() < 0.35
+    rdt = rng.choice(_rate_dtypes()) if rep and rng.random() < 0.6 else "f8"
+    rl = rng.choice(LAYOUTS_2D) if rep else "C"
+    if rep and rdt == "f8" and rng.random() < 0.6:
+        rl = rng.choice(["F", "T", "colstep", "rowstep"])
+    cls, data = _gen_rates(rng, g, (ns, nm)) if rdt == "f8" else _gen_rates_dtype(rng, g, (ns, nm), rdt)
     k = rng.random()
     if k < 0.1 and ns > 1:
         data[rng.randrange(ns), :] = 0.0
     if not (data > 0).any():
-        data[rng.randrange(ns), rng.randrange(nm)] = 10.0 ** rng.uniform(-9, 1)
+        data[rng.randrange(ns), rng.randrange(nm)] = 10.0 ** rng.uniform(-9, 1) if rdt == "f8" else 1.0
     n = rng.choice([0, 1, 2, rng.randint(3, 20), rng.randint(0, 300), 300])
     allow_zero = rng.random() < 0.2
     flat = [(i, j) for i in range(ns) for j in range(nm) if allow_zero or data[i, j] > 0]
@@ -280,18 +470,24 @@ def _gen_test_spec(rng, tier):
         data[forced] = 0.0
         if not (data > 0).any():
             k = rng.choice([q for q in range(ns * nm) if (q // nm, q % nm) != forced])
-            data[k // nm, k % nm] = 10.0 ** rng.uniform(-9, 1)
+            data[k // nm, k % nm] = 10.0 ** rng.uniform(-9, 1) if rdt == "f8" else 1.0
         chosen = [c for c in chosen if data[c] > 0 or allow_zero] + [forced]
     events = []
     for e in range(n):
         i, j = forced if (forced is not None and e == 0) else rng.choice(chosen)
         events.append([i, j, rng.uniform(0.2, 0.8).hex(), rng.uniform(0.2, 0.8).hex(), rng.uniform(0.2, 0.8).hex()])
-    return dict(ns=ns, nm=nm, cls=cls, data=[[float(x).hex() for x in row] for row in data], events=events,
+    spec = dict(ns=ns, nm=nm, cls=cls, data=[[float(x).hex() for x in row] for row in data], events=events,
                 nx=rng.randint(1, ns), dh=rng.choice([0.1, 0.5, 1.0]), x0=float(rng.randint(-20, 20)),
                 y0=float(rng.randint(-20, 20)), m0=rng.choice([2.5, 4.0, 4.95]), dm=rng.choice([0.1, 0.5, 1.0]),
                 nsim=rng.choice([1, 2, 3]) if tier == "quick" else rng.choice([1, 2, 3, 5]),
                 rn_seed=rng.randrange(2 ** 32), same_region=rng.random() < 0.5,
                 fscale=rng.choice([None, None, None, 2.0, 0.5, 10.0, 3.0, 0.1]), open_mag=rng.random() < 0.15)
+    if rep:
+        spec.update(rdtype=rdt, rlayout=rl)
+        if rdt != "f8":
+            # whole-number / float32 rates are held as they are (data/c would leave the dtype's value set)
+            spec["fscale"] = None
+    return spec
 
 
 def _build(spec):
@@ -304,12 +500,18 @@ def _build(spec):
     mags = [spec["m0"] + spec["dm"] * k for k in range(nm)]
     region = CartesianGrid2D.from_origins(origins, dh=dh, magnitudes=mags)
     c = spec.get("fscale")
+    rdt, rl = spec.get("rdtype", "f8"), spec.get("rlayout", "C")
     if c:
         # the forecast holds data/c and is scaled by c (GriddedDataSet.scale): the rates under test are `fore.data`
-        fore = GriddedForecast(data=data / c, region=region, magnitudes=mags, name="forecast").scale(c)
+        fore = GriddedForecast(data=_layout((data / c).astype(_NP[rdt]), rl, 3.0), region=region, magnitudes=mags,
+                               name="forecast").scale(c)
         data = numpy.array(fore.data, dtype=float)
     else:
-        fore = GriddedForecast(data=data.copy(), region=region, magnitudes=mags, name="forecast")
+        # the same numbers in the representation (dtype, memory layout) the spec names
+        held = _layout(data.astype(_NP[rdt]), rl, 3.0)
+        if not numpy.array_equal(held, data):
+            raise AssertionError("harness: the representation changed the values")
+        fore = GriddedForecast(data=held, region=region, magnitudes=mags, name="forecast")
     cnt = numpy.zeros((ns, nm), dtype=int)
     ev = []
     for k, (i, j, fx, fy, fm) in enumerate(spec["events"]):
@@ -322,11 +524,48 @@ def _build(spec):
     return fore, cat, data, cnt
 
 
-def _sim_counts(rates1d, rn):
+def _sim_counts(rates1d, rn, band=0.0):
+    """the simulated catalog the inverse-CDF sampler (C06) places for the uniform numbers `rn`; None when a number lies
+    within `band` of a bin boundary (weights formed in float32 may put it on either side: both answers are allowed)"""
     w = numpy.cumsum(rates1d)
     w = w / w[-1]
+    if band and len(rn) and numpy.min(numpy.abs(numpy.asarray(rn)[:, None] - w[None, :])) <= band:
+        return None
     idx = numpy.searchsorted(w, rn, side="right")
     return numpy.bincount(idx, minlength=len(rates1d)).astype(int)
+
+
+def _score_entries(run, drv, pending, case, mode, fname, data, cnt, rn, obs, td, rdt):
+    """oracle + model request for the observed and every simulated entry of one test. data: (space, magnitude) float64
+    values of the rates under test, cnt: the gridded observation, rn: injected numbers, rdt: dtype of the rate array"""
+    nsim = len(rn)
+    eps, unit, rate_err, band = EPS64, _unit(rdt), 0.0, 0.0
+    if mode == "S":
+        rates1d, obs1d, orates = data.sum(axis=1), cnt.sum(axis=1), [math.fsum(r) for r in data.tolist()]
+        rate_err = (data.shape[1] + 1) * unit        # the implementation sums float32 / float16 rates in their own dtype
+    else:
+        rates1d, obs1d, orates = data.ravel(), cnt.ravel(), data.ravel().tolist()
+    band = 4.0 * unit * len(rates1d)                 # ... and accumulates the sampling weights in it
+    if len(td) != nsim:
+        run.oracle_failure(case, f"{fname}: test_distribution has {len(td)} entries for {nsim} simulations")
+        return
+    sims = [_sim_counts(rates1d, rn[k, :], band) for k in range(nsim)]
+    entries = [("observed", obs1d, obs)] + [(f"simulated[{k}]", sims[k], td[k]) for k in range(nsim)]
+    vals, tols = [], []
+    for name, counts, val in entries:
+        if counts is None:
+            run.count("sim-entry-ambiguous-narrow-float-weights")
+            vals.append(val)
+            tols.append(None)
+            continue
+        chk = _check_brier if mode == "B" else _check_binary
+        tols.append(chk(run, case, f"{fname} {name}", val, orates, [int(c) for c in counts], eps, rate_err))
+        vals.append(val)
+    if any(s_ is None for s_ in sims):
+        return                       # the model request needs every simulated catalog; the observed entry was checked above
+    simtxt = ";".join(",".join(str(int(c)) for c in s_) for s_ in sims) if sims else "-"
+    i = drv.ask(f"c16_mode {mode} {_rows(data, _bits)} {_rows(cnt, lambda c: str(int(c)))} {simtxt}")
+    pending.append((case, mode, [i], vals, tols))
 
 
 def _test_case(run, drv, pending, spec, tag="test"):
@@ -334,20 +573,19 @@ def _test_case(run, drv, pending, spec, tag="test"):
     from csep.core import brier_evaluations as br
     fore, cat, data, cnt = _build(spec)
     ns, nm, nsim = spec["ns"], spec["nm"], spec["nsim"]
+    rdt, rl = spec.get("rdtype", "f8"), spec.get("rlayout", "C")
     g = numpy.random.default_rng(spec["rn_seed"])
     case = dict(spec=spec, kind="test", tag=tag)
     fc = cnt.ravel().tolist()
     nontriv = 0 < sum(1 for c in fc if c > 0) < len(fc) and max(fc) >= 2
     run.case(dict(kind="test", shape=[ns, nm], cls=spec["cls"], n_obs=len(spec["events"]),
-                  zeros=int((data == 0).sum()), tag=tag), (data.tobytes(), cnt.tobytes()) if nontriv else None)
-    rows = data.tolist()
-    spatial_exact = [math.fsum(r) for r in rows]
+                  zeros=int((data == 0).sum()), tag=tag, rdtype=rdt, rlayout=rl),
+             (data.tobytes(), cnt.tobytes(), rdt, rl) if nontriv else None)
+    run.count(f"forecast-dtype-{rdt}")
+    run.count(f"forecast-layout-{rl}")
     for mode, fn in (("S", be.binary_spatial_test), ("CL", be.binary_conditional_likelihood_test),
                      ("B", br.brier_score_test)):
-        if mode == "S":
-            rates1d, obs1d, orates = data.sum(axis=1), cnt.sum(axis=1), spatial_exact
-        else:
-            rates1d, obs1d, orates = data.ravel(), cnt.ravel(), data.ravel().tolist()
+        obs1d = cnt.sum(axis=1) if mode == "S" else cnt.ravel()
         n_active = int((obs1d > 0).sum())
         rn = g.random((nsim, n_active))
         try:
@@ -357,26 +595,15 @@ def _test_case(run, drv, pending, spec, tag="test"):
             run.oracle_failure(case, f"{fn.__name__} raised {type(e).__name__}: {e}")
             continue
         run.count(f"call-{fn.__name__}")
-        sims = [_sim_counts(rates1d, rn[k, :]) for k in range(nsim)]
-        obs = float(res.observed_statistic)
-        td = [float(x) for x in res.test_distribution]
-        if len(td) != nsim:
-            run.oracle_failure(case, f"{fn.__name__}: test_distribution has {len(td)} entries for {nsim} simulations")
-            continue
-        vals, tols = [], []
-        for name, counts, val in [("observed", obs1d, obs)] + [(f"simulated[{k}]", sims[k], td[k]) for k in range(nsim)]:
-            chk = _check_brier if mode == "B" else _check_binary
-            tols.append(chk(run, case, f"{fn.__name__} {name}", val, orates, [int(c) for c in counts]))
-            vals.append(val)
-        simtxt = ";".join(",".join(str(int(c)) for c in s) for s in sims) if sims else "-"
-        i = drv.ask(f"c16_mode {mode} {_rows(data, _bits)} {_rows(cnt, lambda c: str(int(c)))} {simtxt}")
-        pending.append((case, mode, [i], vals, tols))
-    _cells_check(run, drv, pending, case, fore, cat, data, cnt)
+        _score_entries(run, drv, pending, case, mode, fn.__name__, data, cnt, rn, float(res.observed_statistic),
+                       [float(x) for x in res.test_distribution], rdt)
+    _cells_check(run, drv, pending, case, fore, cat, data, cnt, rdt)
 
 
-def _cells_check(run, drv, pending, case, fore, cat, data, cnt):
+def _cells_check(run, drv, pending, case, fore, cat, data, cnt, rdt="f8"):
     """binary_spatial_likelihood: per-cell binary terms of the spatial rates scaled by N_obs/N_fore. Checked where every
-    scaled rate is positive (all spatial rates positive, catalog not empty); elsewhere only counted (0*log 0 = nan)."""
+    scaled rate is positive (all spatial rates positive, catalog not empty); elsewhere only counted (0*log 0 = nan).
+    Dtype-aware: a cell whose own term 1 - exp(-rate*scale) is 0 in the forecast's floating dtype is not compared."""
     from csep.core import poisson_evaluations as pe
     n = int(cnt.sum())
     srates = [math.fsum(r) for r in data.tolist()]
@@ -390,28 +617,55 @@ def _cells_check(run, drv, pending, case, fore, cat, data, cnt):
         run.count("cells-outside-domain")
         run.extra["cells_nan_outside_domain"] = run.extra.get("cells_nan_outside_domain", 0) + int(numpy.isnan(bill).sum())
         return
+    if rdt[0] == "u" and "map-unsigned-int-rates" in AWAITING_DECISION:
+        run.count("cells-awaiting-decision:map-unsigned-int-rates")
+        return
     run.count("cells-checked")
     s = n / math.fsum(srates)
     w = cnt.sum(axis=1)
+    # the map works on the forecast as it is: for float32 / float16 rates the marginal sums, the scale and
+    # 1 - exp(-rate * scale) are formed in that dtype (integer rates: exact sums, then float64)
+    unit, nm = _unit(rdt), data.shape[1]
+    slack = (nm + 4) * unit
+    if unit:
+        with numpy.errstate(all="ignore"):
+            scale_dt = _NP[rdt](n) / _NP[rdt](math.fsum(srates))
+        if not numpy.isfinite(scale_dt):
+            # N_obs / N_fore exceeds the largest number of the forecast's dtype (float16: 65504): every cell is inf or nan
+            run.count("cells-scale-overflows-in-forecast-dtype")
+            return
     ref, tols = [], []
     for r, c in zip(srates, w):
         l = r * s
-        if c > 0:
+        if unit and (_underflows(l * (1.0 - slack), _NP[rdt]) or not numpy.isfinite(_NP[rdt](l * (1.0 + slack)))):
+            # 1 - exp(-rate * scale) is 0 in the forecast's dtype (or rate * scale is not finite in it): the map's own term
+            # is 0 * log(0) = nan (empty cell) or log(0) = -inf (active cell). Same kind of value as the nan of a zero-rate cell, outside the statement; the
+            # cell is not compared (every other cell of the map is)
+            run.count("cells-term-underflows-in-forecast-dtype")
+            ref.append(None)
+            tols.append(None)
+        elif c > 0:
             p = -math.expm1(-l)
             ref.append(math.log(p))
-            tols.append(2.0 ** -51 / p)
+            tols.append(EPS64 / p + (unit / p + slack * (l / p + abs(ref[-1])) if unit else 0.0))
         else:
             ref.append(-l)
-            tols.append(0.0)
+            tols.append(slack * l)
     if bill.shape != (len(ref),):
         run.oracle_failure(case, f"binary_spatial_likelihood: shape {bill.shape} for {len(ref)} cells")
         return
-    bad = [k for k in range(len(ref)) if not _close(float(bill[k]), ref[k], tols[k])]
+    bad = [k for k in range(len(ref)) if ref[k] is not None and not _close(float(bill[k]), ref[k], tols[k])]
     if bad:
         k = bad[0]
         run.oracle_failure(case, f"binary_spatial_likelihood cell {k}: {float(bill[k])!r} != definition {ref[k]!r}")
     i = drv.ask(f"c16_cells {_rows(data, _bits)} {_rows(cnt, lambda c: str(int(c)))}")
     pending.append((case, "cells", [i], [float(x) for x in bill], tols))
+
+
+def _underflows(x, dt):
+    """is 1 - exp(-x) zero in the floating dtype dt (exp(-x) rounds to 1)"""
+    with numpy.errstate(all="ignore"):
+        return bool(dt(1.0) - numpy.exp(-dt(x)) == dt(0.0))
 
 
 def _flush(run, drv, pending):
@@ -443,10 +697,22 @@ def _corpus_cases():
 
 
 def _fixed_array_specs():
-    def spec(shape, rates, counts, counts2=None, fl=False):
-        return dict(shape=list(shape), cls="fixed", ckind="fixed", rates=[float(x).hex() for x in rates],
-                    counts=list(counts), counts2=list(counts2 or counts), float_counts=fl)
+    def spec(shape, rates, counts, counts2=None, fl=False, **rep):
+        return dict(dict(shape=list(shape), cls="fixed", ckind="fixed", rates=[float(x).hex() for x in rates],
+                         counts=list(counts), counts2=list(counts2 or counts), float_counts=fl),
+                    **(dict(dict(drivers=2, rn_seed=7), **rep) if rep else {}))
+    r43 = [0.011, 0.7, 0.05, 2.5, 0.3, 0.002, 1.1, 0.09, 0.6, 0.004, 3.0, 0.25]
+    c43 = [0, 2, 0, 1, 0, 0, 0, 0, 3, 0, 1, 0]
     return [
+        # one (space x magnitude) array in several representations: column-major rates with row-major counts, the
+        # reverse, slices, and whole-number rates stored as integers / float32, bool and uint8 observations
+        spec((4, 3), r43, c43, rlayout="F", clayout="C"),
+        spec((4, 3), r43, c43, rlayout="T", clayout="colstep", cdtype="f8"),
+        spec((4, 3), r43, c43, rlayout="C", clayout="F", cdtype="?"),
+        spec((4, 3), r43, c43, rlayout="rowstep", clayout="window", cdtype="u1"),
+        spec((2, 3), [1, 2, 1, 3, 1, 1], [0, 1, 0, 2, 0, 0], rdtype="i8"),
+        spec((2, 3), [1, 2, 0, 3, 10, 1], [0, 1, 0, 2, 0, 4], rdtype="i4", rlayout="F", cdtype="i4"),
+        spec((5,), [0.5, 0.25, 2.0, 0.0, 8.0], [1, 0, 0, 0, 7], rdtype="f4", rlayout="step", clayout="rev"),
         spec((2, 3), [0.1, 0.2, 0.3, 0.4, 0.5, 0.6], [0, 1, 0, 2, 0, 0], [0, 5, 0, 1, 0, 0]),
         spec((4,), [0.5, 0.0, 0.3, 0.0], [1, 1, 0, 0]),                 # D17 witness: event in a zero-rate bin
         spec((1,), [1e-9], [3]),
